@@ -5,8 +5,9 @@ import vlib
 
 LEVEL = "proof"
 HERE = os.path.dirname(os.path.abspath(__file__))
-MODELLED = ("ptr", "hex2bin", "atoi2", "unesc", "num", "xstr", "rem", "re", "ini", "split", "uuid", "csv", "jsk", "jssk", "sde", "wstrtoll")   # commands answered by the extracted model as well
-PURE_MODEL = ("rem", "re", "ini", "split", "uuid", "csv", "jsk", "jssk", "sde")        # the model of these has no ambient state at all (no errno parameter): asked once
+MODELLED = ("ptr", "hex2bin", "atoi2", "unesc", "num", "xstr", "rem", "re", "ini", "split", "uuid", "csv", "jsk", "jssk", "sde", "wstrtoll",
+            "replace", "jdoc", "jsdoc", "jbl", "jblpatch", "jblmerge")   # commands answered by the extracted model as well
+PURE_MODEL = ("rem", "re", "ini", "split", "uuid", "csv", "jsk", "jssk", "sde", "replace", "jdoc", "jsdoc", "jbl", "jblpatch", "jblmerge")        # the model of these has no ambient state at all (no errno parameter): asked once
 ERANGE, EINVAL = 34, 22
 # The determinism oracle ("depends only on the input").  Every query is answered under each of these states of the world;
 # the harness line prefix is <errno>:<fill byte of caller-provided output storage and of the stack below the call>[:w]
@@ -197,6 +198,25 @@ def jstr(b):
     return b'"' + b.replace(b"\\", b"\\\\").replace(b'"', b'\\"') + b'"'
 
 
+IDX = [b"/0", b"/1", b"/2", b"/-", b"/-1", b"/-2", b"/01", b"/+1", b"/ 1", b"/1e3", b"/2147483647", b"/2147483648", b"/4294967295", b"/4294967296",
+       b"/4294967297", b"/-2147483648", b"/-2147483649", b"/9223372036854775807", b"/9223372036854775808", b"/18446744073709551616",
+       b"/99999999999999999999", b"/-99999999999999999999", b"/b/4294967296", b"/b/-1", b"/b/2147483648"]
+
+
+def g_patch_idx(rng):
+    """array indices far outside the array, negative, and beyond int / int64 (the index is read with iwatoi into an int)"""
+    ops = []
+    for _ in range(rng.range(1, 2)):
+        op = rng.choice([b"add", b"remove", b"replace", b"move", b"copy", b"test", b"increment", b"swap", b"add_create"])
+        o = b'{"op":' + jstr(op) + b',"path":' + jstr(rng.choice(IDX))
+        if op in (b"move", b"copy", b"swap"):
+            o += b',"from":' + jstr(rng.choice(IDX))
+        else:
+            o += b',"value":' + rng.choice([b"9", b"[7]", b'"v"'])
+        ops.append(o + b"}")
+    return b"[" + b",".join(ops) + b"]"
+
+
 def g_patch(rng):
     ops = []
     for _ in range(rng.range(0, 3)):
@@ -215,10 +235,18 @@ def g_patch(rng):
 
 
 def g_xstr(rng):
-    ops = [str(rng.choice([0, 1, 2, 16, 64]))]
+    ops = [str(rng.choice([0, 1, 2, 16, 64, 200]))]
     size = 0
     for _ in range(rng.range(0, 8)):
-        k = rng.below(5)
+        k = rng.below(6)
+        if k == 5:
+            # a clone takes over; what follows must fit the capacity the clone REPORTS (no growth), so that a clone
+            # which owns less than it reports is written past its block
+            ops.append("k")
+            if rng.chance(2, 3):
+                fit = rng.bytes(rng.choice([1, 2, 7, 9, 10, 14, 40])).replace(b"\x00", b"\x01")
+                ops.append(rng.choice(["c", "u", "i0:"]) + hx(fit)); size += len(fit)
+            continue
         b = rng.bytes(rng.weighted([(0, 1), (1, 3), (3, 3), (17, 1), (70, 1)])).replace(b"\x00", b"\x01")
         if k == 0:
             ops.append("c" + hx(b)); size += len(b)
@@ -251,6 +279,8 @@ def g_replace(rng):
     for _ in range(rng.range(0, 8)):
         d += rng.weighted([(b"a", 3), (b"{x}", 3), (b"{yy}", 2), (b" ", 1), (b"{", 1), (b"x", 1)])
     keys = [(b"{x}", rng.choice([b"", b"1", b"{yy}", b"longer-than-key", b"{x}"])), (b"{yy}", rng.choice([b"Q", b"", b"{x}"])), (b"a", b"aa"), (b"zz", b"n")]
+    if rng.chance(1, 8):
+        keys.append((b"", rng.choice([b"", b"x"])))         # an empty key (filtered out by allowed() while the defect is open)
     n = rng.range(0, 3)
     sel = [keys[rng.below(len(keys))] for _ in range(n)]
     return " ".join([hx(d)] + [hx(x) for kv in sel for x in kv])
@@ -544,11 +574,22 @@ def sweep(rng, full):
         for n in (2 * k, 2 * k + 2, 2 * k + 4, 64, 66, 200):
             L.append("rem %s %s %d" % (hx(b"^" + b"(a)" * k + b"b"), hx(b"a" * k + b"b"), n))
         L.append("rem %s %s %d" % (hx(b"|".join(b"(%c)" % (97 + i % 26) for i in range(max(k, 1)))), hx(b"z"), 2 * k + 2))
+    # xstr: a clone of a string with slack (capacity c, n bytes used), then an append / prepend / insert of m bytes that
+    # fits the capacity the clone reports: no reallocation, the bytes land in the clone's own block
+    for cap in (1, 2, 16, 17, 64, 4096):
+        for n in (0, 1, 4, cap - 1, cap):
+            for m in (1, cap - n - 2, cap - n - 1, cap - n):
+                if n >= 0 and m > 0:
+                    for op in ("c", "u", "i0:"):
+                        L.append("xstr %d c%s k %s%s" % (cap, hx(b"a" * n), op, hx(b"b" * m)))
+            L.append("xstr %d c%s k k p1 s1" % (cap, hx(b"a" * max(n, 0))))
     # JSON nesting at the limit: arrays, objects, mixed; closed, unclosed, one level too deep
     # (the list machine needs ~1.5 s for a 1000 level object document: the quick tier takes those at 1000 and 1001 only)
     for d in (998, 999, 1000, 1001, 1002):
-        docs = [b"[" * d + b"]" * d, b"[" * d, b'[{"a":' * (d // 2) + b"0" + b"}]" * (d // 2)]
+        docs = [b"[" * d + b"]" * d, b"[" * d]
         if full or d in (1000, 1001):
+            docs.append(b'[{"a":' * (d // 2) + b"0" + b"}]" * (d // 2))
+        if full or d == 1000:
             docs.append(b'{"a":' * d + b"1" + b"}" * d)
         if full:
             docs.append(b'{"a":' * d)
@@ -568,6 +609,57 @@ def sweep(rng, full):
     for n in (1, 10, 100, 300, 390, 400, 1021, 1022, 1023, 1024):
         L.append("re %s %s" % (hx(b"a|" * n + b"b"), hx(b"b")))
         L.append("re %s %s" % (hx(b"|".join([b"ab"] * n)), hx(b"ab")))
+    return L
+
+
+BOM = b"\xef\xbb\xbf"
+
+
+def rootless(t):
+    """a JSON text without any value: the first byte the value parser does not skip is a closing bracket"""
+    if t.startswith(BOM):
+        t = t[3:]
+    return t.lstrip(b" \t\n\r,")[:1] == b"]"
+
+
+def allowed(cmd):
+    """open library defects (notes/safety.md, deepening round): queries that run into them are generated only once the
+    tree is fixed (T1 fact) or when VERIF_SAFETY_OPEN is set"""
+    if os.environ.get("VERIF_SAFETY_OPEN"):
+        return True
+    a = cmd.split()
+    if a[0] == "wstrtoll":
+        return bool(FACTS.get("strto_clears"))
+    if a[0] == "jbl" and not FACTS.get("json_rootless"):
+        return not rootless(bytes.fromhex(a[1]) if a[1] != "-" else b"")
+    if a[0] in ("jblpatch", "jblmerge") and not FACTS.get("json_rootless"):
+        return not any(rootless(bytes.fromhex(x) if x != "-" else b"") for x in a[1:3])
+    if a[0] == "replace" and not FACTS.get("replace_empty"):
+        return all(k != "-" for k in a[2::2])             # no empty key
+    return True
+
+
+SHORT1 = b"]},[{\"':\\01-.enNtf ~/\x80\xffa;#=()|*+?^$\t\n"
+SHORT2 = b"]},[{\":1- "
+
+
+def sweep_short(full):
+    """every one-byte text and every two-byte text over the structural alphabet through every parser entry point"""
+    L = []
+    one = [bytes([c]) for c in (range(1, 256) if full else sorted(set(SHORT1)))]
+    al2 = sorted(set(SHORT1 if full else SHORT2))
+    two = [bytes([a, b]) for a in al2 for b in al2]
+    doc = DOCS[1]
+    for t in one + two:
+        h = hx(t)
+        json_like = ["json " + h, "js " + h, "jdoc " + h, "jsdoc " + h, "jsk " + h, "jssk " + h, "jbl " + h, "ptr " + h,
+                     "at %s %s" % (hx(doc), h), "patch %s %s" % (hx(doc), h), "merge %s %s" % (hx(doc), h),
+                     "jblpatch %s %s" % (hx(doc), h), "jblmerge %s %s" % (hx(doc), h), "jblpatch %s %s" % (h, hx(b"[]"))]
+        L += json_like
+        if len(t) == 1 or full:
+            L += ["ini " + h, "atoi " + h, "atof " + h, "strtod " + h, "sde " + h, "num " + h, "uuid " + h, "wstrtoll " + h,
+                  "unesc 34 " + h, "re %s 61" % h, "re 61 %s" % h, "split %s 2c 1" % h, "split 612c62 %s 0" % h,
+                  "replace %s 61 62" % h, "replace 616261 %s 78" % h, "atoi2 " + h, "afcmp %s 31" % h, "hex2bin %s 4" % h]
     return L
 
 
@@ -684,6 +776,13 @@ def gen(rng, n):
         if FACTS.get("strto_clears") or os.environ.get("VERIF_SAFETY_OPEN"):
             L.append("wstrtoll " + hx(g_wstrtoll(rng)))
         L.append("patch %s %s" % (hx(rng.choice(DOCS)), hx(g_patch(rng))))
+        pi = g_patch_idx(rng)
+        L.append("patch %s %s" % (hx(rng.choice([b"[1,2]", b"[]", DOCS[0], DOCS[1]])), hx(pi)))
+        L.append("jblpatch %s %s" % (hx(rng.choice([b"[1,2]", DOCS[0]])), hx(pi)))
+        L.append("at %s %s" % (hx(rng.choice([b"[1,2]", DOCS[0]])), hx(rng.choice(IDX))))
+        jb = g_json(rng)
+        L.append("jbl " + hx(mutate(rng, jb) if rng.chance(1, 3) else jb))
+        L.append("jblmerge %s %s" % (hx(rng.choice(DOCS)), hx(rng.choice([b'{"a":null}', b'{"c":{"d":null,"z":[1]}}', b"[1]", b"null", jb]))))
         mp = g_json(rng) if rng.chance(1, 2) else rng.choice([b'{"a":null}', b'{"a":{"b":1}}', b'{"c":{"d":null,"z":[1]}}', b"[1]", b"null", b'{"b":{"0":1}}'])
         L.append("merge %s %s" % (hx(rng.choice(DOCS)), hx(mp)))
         L.append("at %s %s" % (hx(rng.choice(DOCS)), hx(g_pointer_for(rng))))
@@ -859,12 +958,30 @@ def load_corpus():
 FACTS = {}
 
 
+def run_model(model, lines, workers=8):
+    """the extracted model answers one line per query and keeps no state between lines: the queries are dealt out to
+    `workers` processes (round robin, the expensive documents are spread) and the answers put back in order"""
+    k = max(1, min(workers, len(lines) // 64 or 1))
+    parts = [lines[j::k] for j in range(k)]
+    with ThreadPoolExecutor(max_workers=k) as ex:
+        res = list(ex.map(lambda part: vlib.run_lines(model, "\n".join(part) + "\n", timeout=600), parts))
+    rc = max(r[0] for r in res)
+    err = "".join(r[2] for r in res if r[0])
+    out = [None] * len(lines)
+    for j, (_, o, _) in enumerate(res):
+        for t, a in enumerate(o[:len(parts[j])]):
+            out[j + t * k] = a
+    return rc, ["<missing>" if a is None else a for a in out], err
+
+
 def read_facts():
     """variant flags of the current tree (T1, written by probe_safety_txt.c) that decide which queries are generated"""
     FACTS.clear()
     try:
         txt = open(os.path.join(vlib.COQ, "Gen", "Facts.v")).read()
         FACTS["strto_clears"] = "fact_strto_clears_errno : bool := true" in txt
+        FACTS["json_rootless"] = "fact_json_rejects_rootless : bool := true" in txt
+        FACTS["replace_empty"] = "fact_replace_skips_empty_key : bool := true" in txt
     except OSError:
         pass
 
@@ -879,7 +996,8 @@ def check(run):
     n = 300 if run.tier == "quick" else 40000
     if not proofs_ok:
         n *= 10
-    cmds = load_corpus() + sweep(rng, run.tier != "quick") + gen(rng, n)
+    cmds = load_corpus() + sweep(rng, run.tier != "quick") + sweep_short(run.tier != "quick") + gen(rng, n)
+    cmds = [c for c in cmds if allowed(c)]
     # de-duplicate, keep order
     seen, uniq = set(), []
     for c in cmds:
@@ -911,16 +1029,20 @@ def check(run):
     findA = FINDS[0]
     findB = [f for fs in FINDS[1:] for f in fs]
 
-    # model side: once for the fresh state (errno 0), once with the errno the history run pre-set
+    # model side: once for the fresh state (errno 0), and for the commands whose model takes the ambient errno once per
+    # errno value the other states pre-set (after-history: eb[i]; reused-heap: the other one of ERANGE / EINVAL)
     midx = [i for i, c in enumerate(cmds) if c.split()[0] in MODELLED]
     midx2 = [i for i in midx if cmds[i].split()[0] not in PURE_MODEL]
-    rc, mout, merr = vlib.run_lines(model, "\n".join([cmds[i] for i in midx] + ["%s @%d" % (cmds[i], eb[i]) for i in midx2] + ["facts"]) + "\n",
-                                    timeout=600)
+    rc, mout, merr = run_model(model, [cmds[i] for i in midx] + ["%s @%d" % (cmds[i], eb[i]) for i in midx2] +
+                               ["%s @%d" % (cmds[i], ERANGE + EINVAL - eb[i]) for i in midx2] + ["facts"])
     if rc != 0:
         run.broken.append("T2 model driver exited %d: %s" % (rc, merr[-400:]))
     ansM = {i: (mout[k] if k < len(mout) else "<missing>") for k, i in enumerate(midx)}
     ansMB = dict(ansM)
     ansMB.update({i: (mout[len(midx) + k] if len(midx) + k < len(mout) else "<missing>") for k, i in enumerate(midx2)})
+    ansMC = dict(ansM)
+    ansMC.update({i: (mout[len(midx) + len(midx2) + k] if len(midx) + len(midx2) + k < len(mout) else "<missing>") for k, i in enumerate(midx2)})
+    ansMS = [ansM, ansMB, ansMC]          # model answer per state of the world
 
     # ---- oracle 1: sanitizer report / crash / timeout on the implementation = violation (replay = the query line)
     best = {}
@@ -979,6 +1101,10 @@ def check(run):
     def agrees(m, a, ks, other):
         if m == "BIG":                   # regex program too large for the list machine: not compared
             return True
+        if m == "NULLROOT":              # success without a node handed to a caller that dereferences it: a crash is due
+            return bool(ks)
+        if m == "FUEL":                  # the model's loop bound does not suffice: the call does not come back
+            return any(k.startswith("timeout:") or "memory" in k for k in ks)
         if m == "?":                     # JSON number too close to the limits of the double range: iwstrtod's ERANGE verdict is
             return not ks                #   floating point arithmetic the index-level model takes as a parameter
         if m.startswith("OOB"):
@@ -999,12 +1125,12 @@ def check(run):
             if si == 0:
                 ok = ok and agrees(ansM[i], ansA[i], keysA.get(i, set()), ansB[i])
             else:
-                ok = ok and agrees(ansMB[i], ANS[si][i], keysB.get(i, set()), ansA[i])
+                ok = ok and agrees(ansMS[min(si, 2)][i], ANS[si][i], keysB.get(i, set()), ansA[i])
         if not ok:
             mism.append(i)
     mism.sort(key=lambda i: (0 if any(ANS[si][i] == "TIMEOUT" for si in range(len(STATES))) else 1, len(cmds[i])))
     run.cov["traces_validated_against_impl"] = len(midx) - len(mism)
-    run.cov["model_variant"] = mout[len(midx) + len(midx2)] if len(mout) > len(midx) + len(midx2) else ""
+    run.cov["model_variant"] = mout[len(midx) + 2 * len(midx2)] if len(mout) > len(midx) + 2 * len(midx2) else ""
     run.cov["regex_programs_too_big_for_model"] = sum(1 for i in midx if ansM[i] == "BIG")
     if mism:
         i = mism[0]
